@@ -8,6 +8,22 @@ use flussab::DeferredReader;
 use rand::Rng;
 use std::collections::HashMap;
 
+/// like `one`, but exactly `first` bytes are buffered when the scanner is called (the first read delivers that many)
+fn one_cut(stream: &[u8], f: &str, ty: &str, off: usize, first: usize, id: u64) {
+    let first = first.clamp(1, stream.len().max(1));
+    let src = Source::new(stream.to_vec(), Policy::Cuts(vec![first]), id);
+    let mut reader = DeferredReader::from_read(src);
+    trace::sync_source_counter();
+    trace::rec(json!({"ev":"reset","kind":"reader","id":id,"stream":bytes_json(stream),"limit":stream.len(),
+        "faulty":false,"pre":0,"chunk":16384,"ctor":"from_read"}));
+    trace::rec(json!({"ev":"call","op":"request","arg":1}));
+    let l = reader.request(1).len();
+    trace::rec(json!({"ev":"ret","op":"request","panic":false,"val":l,
+        "pos":0,"avail":reader.buf_len(),"mark":0,"complete":reader.is_complete(),"at_end":reader.is_at_end(),
+        "err":false,"buf":bytes_json(reader.buf()),"sane":true}));
+    scan_op(&mut reader, f, ty, off, &[]);
+}
+
 fn one(stream: &[u8], f: &str, ty: &str, off: usize, prebuffer: usize, id: u64) {
     let src = Source::new(stream.to_vec(), Policy::Fixed(if prebuffer == 0 { 1 } else { usize::MAX }), id);
     let mut reader = DeferredReader::from_read(src);
@@ -163,6 +179,51 @@ pub fn run(opts: &HashMap<String, String>) -> i32 {
                 v.extend_from_slice(b"12345678");
                 let pre = if pre_full { v.len() } else { 0 };
                 emit(&v, f, "u256", 0, pre, &mut emitted, &mut idx);
+            }
+        }
+    }
+    // 3c. the amount of buffered data right at the edge of the 8-byte fast paths: a run of n digits (with and without
+    // sign), exactly off + k bytes buffered for k around 8
+    for n in 5..=11usize {
+        for neg in [false, true] {
+            for off in [0usize, 3] {
+                for k in 6..=11usize {
+                    for f in ["ascii_digits_multi", "signed_ascii_digits_multi"] {
+                        if neg && f == "ascii_digits_multi" { continue; }
+                        let mut v: Vec<u8> = vec![b'7'; off];
+                        if off > 0 { v[off - 1] = b' '; }
+                        if neg { v.push(b'-'); }
+                        for i in 0..n { v.push(b'1' + (i % 9) as u8); }
+                        v.push(b' ');
+                        v.extend_from_slice(b"987654321 ");
+                        let ty = ["i32", "i64", "u64", "i16", "isize"][(n + k) % 5];
+                        let ty = if f == "ascii_digits_multi" || !neg { ty } else if ty == "u64" { "i64" } else { ty };
+                        idx += 1;
+                        if idx % shards == shard {
+                            one_cut(&v, f, ty, off, off + k, idx);
+                            emitted += 1;
+                        }
+                    }
+                }
+            }
+        }
+    }
+    // 3d. blocks of 8 zeros in front of a sign or a digit: a sign is only a sign at the very start
+    for z in [7usize, 8, 9, 16, 24] {
+        for tail in ["-5 ", "-", "+5 ", "5 ", "-0 ", "00000000-7 ", " "] {
+            for f in ["ascii_digits", "ascii_digits_multi", "signed_ascii_digits", "signed_ascii_digits_multi"] {
+                for pre_full in [true, false] {
+                    for lead in ["", "-"] {
+                        if !lead.is_empty() && !f.starts_with("signed") { continue; }
+                        let mut v: Vec<u8> = lead.as_bytes().to_vec();
+                        v.extend(std::iter::repeat(b'0').take(z));
+                        v.extend_from_slice(tail.as_bytes());
+                        v.extend_from_slice(b"12345678");
+                        let ty = ["u8", "i8", "i32", "u64", "i64", "i16"][(z + tail.len()) % 6];
+                        let pre = if pre_full { v.len() } else { 0 };
+                        emit(&v, f, ty, 0, pre, &mut emitted, &mut idx);
+                    }
+                }
             }
         }
     }
